@@ -17,13 +17,12 @@ theorem writeBitArray_single (b : Bool) : writeBitArray [b] = writeBit b := by
   exact bind_pure_unit _
 
 /-- `WriteUnary(n)`: `n` ones and a zero, on both code paths -/
-theorem writeUnary_eq (n : Nat) (hn : n < 2 ^ 63) : writeUnary n = writeBitArray (List.replicate n true ++ [false]) := by
+theorem writeUnary_eq (n : Nat) : writeUnary n = writeBitArray (List.replicate n true ++ [false]) := by
   rw [writeBitArray_append, writeBitArray_single]
   unfold writeUnary
   by_cases h : n < 63
   · simp only [h, if_true, writeUint_eq, natToBits_ones]
-  · have h2 : ¬ n ≥ 2 ^ 63 := by omega
-    simp only [h, if_false, h2, writeOnes_eq]
+  · simp only [h, if_false, writeOnes_eq]
 
 /-- the loop of `ReadUnary` -/
 theorem readUnaryLoop_spec (fuel : Nat) : ∀ (acc : Nat) (s : BitString), s.len ≤ 8 * s.buf.length →
